@@ -556,8 +556,14 @@ class PythonToIrCompiler:
             if ty is None:
                 self.error(node, "Undefined variable")
             else:
-                mem = self.emit(ir.Alloc(f"alloc_{name}", 8, 8))
-                addr = self.emit(ir.AddressOf(mem, f"addr_{name}"))
+                # Allocate in the entry block: it dominates every use, where
+                # the block of the first assignment (one branch of an if, a
+                # loop body) does not.
+                mem = ir.Alloc(f"alloc_{name}", 8, 8)
+                addr = ir.AddressOf(mem, f"addr_{name}")
+                entry = self.builder.function.entry
+                entry.insert_instruction(addr)
+                entry.insert_instruction(mem)
                 var = Var(addr, True, ty)
                 self.local_map[name] = var
         return var
